@@ -843,6 +843,23 @@ func c19HandlersReadOnly(w *World, r *Report) {
 		eachInstr(fn, func(in ssa.Instruction) {
 			switch x := in.(type) {
 			case *ssa.MapUpdate:
+				// only maps that belong to the decoded request (a map the handler makes itself is its own business)
+				fromReq := false
+				for _, v := range backSlice(x.Map, SliceOpts{MaxDepth: 6, NoAggregates: true}) {
+					var owner types.Type
+					switch y := v.(type) {
+					case *ssa.FieldAddr:
+						owner = y.X.Type()
+					case *ssa.Field:
+						owner = y.X.Type()
+					}
+					if n := namedOf(owner); owner != nil && n != nil && n.Obj().Pkg() != nil && strings.Contains(n.Obj().Pkg().Path(), "/model") {
+						fromReq = true
+					}
+				}
+				if !fromReq {
+					return
+				}
 				bad++
 				r.Fail("C19-R12", fmt.Sprintf("%s | map write #%d", shortFn2(fn), bad), x.Pos(), "a request handler writes into a map of the decoded request: the map is nil when the body does not carry that key, the write panics and the client gets no JSON answer")
 			}
